@@ -5,6 +5,8 @@ pub static mut FS: Vec<Node> = Vec::new();
 pub static mut OPS: u64 = 0;          // mutating operations applied so far
 pub static mut CRASH_AT: u64 = u64::MAX; // ops with index >= CRASH_AT are dropped
 pub static mut ENV: Vec<(&'static str, &'static str)> = Vec::new();
+/// harness-only: exchange the whole disk content with `other` (one in-memory disk per cluster node: swap in, act, swap out)
+pub fn swap_fs(other: &mut Vec<Node>) { let cur = std::mem::replace(fs(), Vec::new()); let theirs = std::mem::replace(other, cur); *fs() = theirs; }
 fn fs() -> &'static mut Vec<Node> { unsafe { &mut *std::ptr::addr_of_mut!(FS) } }
 fn alive() -> bool { unsafe { let ok = OPS < CRASH_AT; OPS += 1; ok } }
 fn find(p: &str) -> Option<usize> { let f = fs(); let mut i = 0; while i < f.len() { if f[i].path == p { return Some(i); } i += 1; } None }
